@@ -341,6 +341,8 @@ int main(int argc, char** argv) {
       else if (!strcmp(what, "gettype")) HC_TRY(get(c, alien));
       else if (!strcmp(what, "remtype")) HC_TRY(rem(c, alien));
       else if (!strcmp(what, "memtype")) HC_TRY(mem(c, alien));
+      else if (!strcmp(what, "resizehuge")) HC_TRY(resize(c, (size_t)1 << 59));       /* more than can be had: refused, the bindings stay */
+      else if (!strcmp(what, "resizemax")) HC_TRY(resize(c, (size_t)-1));
       else if (!strcmp(what, "setrefuse")) {           /* a value of the right type that the value type's Assign refuses; key: token hc_w[3], present or not */
         var k2 = vt_make(vt_k, (int)hc_int(3)); var bad = new_raw(Probe, $I(PROBE_REFUSED));
         HC_TRY(set(c, k2, bad));
